@@ -475,6 +475,10 @@ func sharedTable(info *types.Info, fd map[string]*ast.FuncDecl, o *out) {
 				if loc == "" {
 					return true
 				}
+				// a constructor works on the object it has just allocated: nothing else can see it yet
+				if strings.HasPrefix(loc, "field:") && strings.HasPrefix(fname, "New") {
+					return true
+				}
 				kind := "R"
 				if writes[key] {
 					kind = "W"
